@@ -20,6 +20,7 @@ def run(r):
                 ("HID2", 3, [97, 98, 99, 100], 12, [(s + 5) % 12], {}), ("SNG", 3, AB, 2, [(s + 1) % 2], {}), ("OPTLR", 3, AB, 2, [(s + 1) % 2], {})]
         rnd = [(100, dict(maxlen=5, named=2)), (60, dict(maxlen=4, named=2, base=0, seed_off=3))]
     parsefam.run_plan(r, {"props": ["C04"], "families": fams, "random": rnd})
+    r.extra["long_inputs"] = parsefam.long_inputs(r, ["C04"], [70, 130] if r.tier == "thorough" else [66 + r.seed % 9])
     r.rule = ("for every explored (grammar, input): parsley.Parse and parsley.Evaluate (an interpreter bound to every sequence) on fresh contexts; "
               "TLC judges node xor error, value xor error, no panic, success <=> Derivation derives the whole input, span = whole file; "
               "named and unnamed alternatives, matching and non-matching inputs, unproductive grammars included")
